@@ -697,6 +697,11 @@ INTEGER_decode_uper(const asn_codec_ctx_t *opt_codec_ctx,
 			long value = 0;
 			if(asn_INTEGER2long(st, &value))
 				ASN__DECODE_FAILED;
+			if((ct->lower_bound > 0
+				&& value > LONG_MAX - ct->lower_bound)
+			|| (ct->lower_bound < 0
+				&& value < LONG_MIN - ct->lower_bound))
+				ASN__DECODE_FAILED;	/* Would overflow */
 			if(asn_imax2INTEGER(st, value + ct->lower_bound))
 				ASN__DECODE_FAILED;
 		}
